@@ -37,9 +37,8 @@ def expected_tc19(st, f14, a, f25, b, vr_src, vr_sign, vr):
         k = 4 if st == 2 else 1
         vwe = (-1 if f14 else 1) * (a - 1) * k
         vsn = (-1 if f25 else 1) * (b - 1) * k
-        spd = math.hypot(vwe, vsn)
         trk = math.degrees(math.atan2(vwe, vsn)) % 360.0
-        return (("approx", spd), trk, vs, "GS", "TRUE_NORTH", src)
+        return (("isqrt", vwe * vwe + vsn * vsn), trk, vs, "GS", "TRUE_NORTH", src)
     hdg = a * 360.0 / 1024.0 if f14 else None
     spd = None if b == 0 else (b - 1) * (4 if st == 4 else 1)
     return (spd, hdg, vs, "TAS" if f25 else "IAS", "MAGNETIC_NORTH", src)
@@ -51,8 +50,15 @@ def compare(obs, exp):
     if not isinstance(obs, tuple) or len(obs) != len(exp):
         return False
     for o, e in zip(obs, exp):
-        if isinstance(e, tuple) and e[0] == "approx":
-            if o is None or isinstance(o, bool) or not (abs(o - e[1]) < 1.0 + 1e-9):
+        if isinstance(e, tuple) and e[0] == "isqrt":
+            # speed = sqrt(e[1]) kt; the property does not fix how it is made an integer: the truncated value, the nearest
+            # integer and the unrounded value are all accepted - nothing else (in particular not "one knot short")
+            if o is None or isinstance(o, bool):
+                return False
+            s2 = e[1]
+            t = math.isqrt(s2)
+            nearest = t + 1 if (2 * t + 1) ** 2 <= 4 * s2 else t
+            if not (o == t or o == nearest or abs(o - math.sqrt(s2)) <= 1e-6):
                 return False
         elif isinstance(e, float):
             if o is None or isinstance(o, bool):
@@ -207,6 +213,32 @@ def cases(ctx):
                             for s2 in (0, 1):
                                 msgs.append([st, s1, a, s2, b, rng.randrange(2), rng.randrange(2), rng.randrange(512),
                                              rng.randrange(2), rng.randrange(128)])
+                yield "tc19", {"msgs": msgs}
+            i += 1
+    # every velocity vector whose speed is an exact integer (Pythagorean pairs): int() of a result that is off by one ulp
+    # shows there and nowhere else; both orders, all signs, subsonic and supersonic
+    import math as _m
+    pyth = [(a, b) for a in range(1, 1023) for b in range(a, 1023) if _m.isqrt(a * a + b * b) ** 2 == a * a + b * b]
+    for j in range(0, len(pyth), 64):
+        if ctx.mine(i):
+            msgs = []
+            for (a, b) in pyth[j:j + 64]:
+                for (u, v) in ((a, b), (b, a)):
+                    for st in (1, 2):
+                        s1, s2 = rng.randrange(2), rng.randrange(2)
+                        msgs.append([st, s1, u + 1, s2, v + 1, rng.randrange(2), rng.randrange(2), rng.randrange(512),
+                                     rng.randrange(2), rng.randrange(128)])
+            yield "tc19", {"msgs": msgs}
+            ctx.hit("exact_integer_speed_vectors")
+        i += 1
+    if not quick:
+        # thorough tier: the full cross product of both magnitudes (subtype 1 and 2 alternate)
+        for a0 in range(0, 1024, 4):
+            if ctx.mine(i):
+                msgs = []
+                for a in range(a0, a0 + 4):
+                    for b in range(1024):
+                        msgs.append([1 + ((a + b) & 1), (a >> 1) & 1, a, b & 1, b, 0, (a ^ b) & 1, (a * 7 + b) % 512, 0, b % 128])
                 yield "tc19", {"msgs": msgs}
             i += 1
     # vertical rate and difference exhaustively
